@@ -509,11 +509,11 @@ func genAny(r *rng) genCase {
 // oracle-free monitors only
 func modelSized(b []byte) bool { return len(b) <= 300 }
 
-// byteSequences enumerates ALL byte strings of length 1..n over a 12-byte alphabet that has every kind of
+// byteSequences enumerates ALL byte strings of length 1..n over a 13-byte alphabet that has every kind of
 // byte (ASCII, a line break, low/middle/high continuation bytes, two-, three- and four-byte leads with
 // and without restricted second-byte ranges): fast paths keyed on byte values and alignments, and every
 // way a sequence can be truncated or interrupted, at every position of a short input
-var byteAlphabet = []byte{'a', '\n', 0x80, 0xa5, 0xbf, 0xc3, 0xe0, 0xe6, 0xe9, 0xed, 0xf0, 0xf4}
+var byteAlphabet = []byte{'a', '\n', 0x80, 0xa5, 0xbf, 0xc3, 0xd0, 0xe0, 0xe6, 0xe9, 0xed, 0xf0, 0xf4}
 
 func byteSequences(n int, emit func([]byte)) {
 	buf := make([]byte, n)
@@ -573,7 +573,7 @@ func smallAlphabet(alg byte, full bool) [][]byte {
 			add(r)
 		}
 	case 'G':
-		for _, r := range []rune{0xFE0F, 0x1F3FB, 'a'} {
+		for _, r := range []rune{0xFE0F, 0x1F3FB, 'a', '1', 0x20E3} {
 			add(r)
 		}
 	case 'S':
